@@ -251,6 +251,10 @@ func (g *mgen) enumType(ints bool) T {
 			ty.Members = append(ty.Members, *Raw(v))
 			ty.MemberNames = append(ty.MemberNames, []string{"Low", "Medium", "High", "Max"}[i])
 		}
+		if !g.cfg.NoDefaults && n > 1 && rapid.IntRange(0, 2).Draw(g.t, "intenumdefault") == 0 {
+			d := ty.Members[rapid.IntRange(0, n-1).Draw(g.t, "intenumdefidx")]
+			ty.Default = &d
+		}
 		return ty
 	}
 	pool := []string{"auto", "always", "never", "with space", "UPPER", "snake_case", "a-b", "1", "x.y"}
